@@ -813,6 +813,10 @@ func MergeVal(c *sym.Term, a, b Val) Val {
 	if valEqual(a, b) {
 		return a
 	}
+	// one normal form for `if c {A} else {B}` and `if !c {B} else {A}`
+	if c.Op == "not" && len(c.Args) == 1 {
+		return &Choice{Cond: c.Args[0], A: b, B: a}
+	}
 	return &Choice{Cond: c, A: a, B: b}
 }
 
